@@ -464,6 +464,11 @@ YR_API int yr_scanner_define_string_variable(
   if (obj->type != OBJECT_TYPE_STRING)
     return ERROR_INVALID_EXTERNAL_VARIABLE_TYPE;
 
+  // Same answer as yr_compiler_define_string_variable and
+  // yr_rules_define_string_variable give for a NULL value.
+  if (value == NULL)
+    return ERROR_INVALID_ARGUMENT;
+
   return yr_object_set_string(value, strlen(value), obj, NULL);
 }
 
